@@ -776,7 +776,12 @@ func (g *generator) enter() {
 func (g *generator) unwindOnPanic(entered *bool) {
 	if *entered {
 		if x := recover(); x != nil {
-			g.vm.popTryFrame()
+			// Drop the frame pushed by enter() / enterNext() and whatever is still above it: while the generator
+			// is returning, enterNextFinallyFrame() turns its own finally frames into markers, so handleThrow()
+			// may have stopped at one of those rather than at the frame pushed on entry.
+			if l := int(g.tryStackLen) - 1; l >= 0 && l < len(g.vm.tryStack) {
+				g.vm.tryStack = g.vm.tryStack[:l]
+			}
 			panic(x)
 		}
 	}
@@ -1090,11 +1095,14 @@ func (g *generatorObject) _return(v Value) Value {
 	g.gen.returning = v
 	g.state = genStateExecuting
 	g.gen.enterNext()
+	entered := true
+	defer g.gen.unwindOnPanic(&entered)
 	canContinue := g.gen.enterNextFinallyFrame()
 	if !canContinue {
 		vm := g.gen.vm
 		g.state = genStateCompleted
 
+		entered = false
 		vm.popTryFrame()
 
 		ex := vm.restoreStacks(g.gen.iterStackLen, g.gen.refStackLen)
@@ -1110,6 +1118,7 @@ func (g *generatorObject) _return(v Value) Value {
 		return g.val.runtime.createIterResultObject(v, true)
 	}
 	res, done, ex := g.gen.step()
+	entered = false
 	vm := g.gen.vm
 	vm.popTryFrame()
 	vm.popCtx()
